@@ -84,6 +84,46 @@ func VP_C03_policy() {
 	}
 }
 
+//vp:property C03 C07
+//vp:flag lockset lockset-repo-sites
+//vp:bounds two tunnels of two different users (names of 1..2 symbolic bytes) have their hosts checked at the same time against a list with one templated entry ("pc-" + placeholder) and one plain entry; each asks for a host of <= 4 symbolic bytes... or for the other user's rendered entry
+//vp:assume lockset: any two accesses by repository code to the same location from the two checks, one of them a write, without a common mutex, are a race (replayed natively under the race detector); and each check, run alone, must give the verdict of the property
+//vp:reach done
+func VP_C03_policy_concurrent() {
+	vpThread("setup")
+	HostSelection = []string{"roundrobin", "unsigned"}[vpIntRange("mode", 0, 1)]
+	Hosts = []string{"pc-" + vpPlaceholder, "shared.example"}
+	users := [2]string{vpString("user-a", 2), vpString("user-b", 2)}
+	vpAssume(len(users[0]) >= 1 && len(users[1]) >= 1 && users[0] != users[1])
+	hosts := [2]string{"pc-" + users[1], "pc-" + users[0]} // each asks for the OTHER user's machine ...
+	if vpBool("a-asks-for-its-own") {
+		hosts[0] = "pc-" + users[0]
+	}
+	if vpBool("b-asks-for-the-shared-host") {
+		hosts[1] = "shared.example"
+	}
+	var oks [2]bool
+	check := func(i int) {
+		id := identity.NewUser()
+		id.SetUserName(users[i])
+		tun := &protocol.Tunnel{User: id}
+		oks[i], _ = CheckHost(vpCtxWith(tun, id), hosts[i])
+	}
+	vpPar(func() {
+		vpThread("A")
+		check(0)
+	}, func() {
+		vpThread("B")
+		check(1)
+	})
+	vpThread("setup")
+	vpReach("done")
+	for i := 0; i < 2; i++ {
+		want := hosts[i] == "pc-"+users[i] || hosts[i] == "shared.example"
+		vpAssert(oks[i] == want, "each-users-host-is-checked-against-the-list-rendered-for-that-user")
+	}
+}
+
 //vp:property C03 C04
 //vp:set s 3 5
 //vp:bounds requested host, token host, token address, presenting address: strings of <= s bytes; client-address attribute present-as-string / absent / non-string; both settings of VerifyClientIP; every host selection mode (any, signed, roundrobin, unsigned, unset); the inner policy is an arbitrary accept/refuse
